@@ -155,6 +155,29 @@ func oracleC03(s *Scenario, x *vrt.Exec, o *Obs) []vrt.Violation {
 			}
 		}
 	}
+	// trace oracle (completeness): the run must not give up while, by what the steps had reported
+	// when it returned, a declared output was producible
+	if o.Err != nil && !o.Cancelled && len(ref.EvalErrs) == 0 {
+		if cls := errClass(o.Err); cls == "no-more-steps" || cls == "no-more-outputs" {
+			// what the steps report while they are being terminated is a consequence of giving up
+			upto := o.RetSeq
+			for _, e := range o.W.Ledger {
+				if e.Kind == "step-forceclose" || e.Kind == "step-close" {
+					upto = e.Seq
+					break
+				}
+			}
+			tv := traceUpTo(s, o.W, upto)
+			for _, od := range s.Prog.Outputs {
+				if n := tv.need(od.Val); n.st == Produced {
+					if _, err := tv.evalSet(od.Val); err == nil {
+						out = append(out, viol(s, "gave-up-although-output-producible", od.ID+"/"+cls, fmt.Sprintf("the run returned %q although, by what the steps had reported, output %s was producible\n%s", short(o.Err.Error(), 120), od.ID, o.W.LedgerString())))
+						break
+					}
+				}
+			}
+		}
+	}
 	// trace oracle: whatever was returned must be justified by what the steps reported
 	if o.Err == nil {
 		var node Node
